@@ -32,6 +32,10 @@ func (t *vTransport) DisabledPushFlags() uint64        { return 0 }
 func (t *vTransport) PingPongConfig() PingPongConfig   { return t.ping }
 func (t *vTransport) Write(b []byte) error             { return t.WriteMany(b) }
 func (t *vTransport) WriteMany(bs ...[]byte) error {
+	if t.closed {
+		// a real transport delivers nothing after Close
+		return errVerifClosed
+	}
 	for _, b := range bs {
 		if t.failAt > 0 && len(t.frames) >= t.failAt {
 			return errVerifWrite
@@ -54,6 +58,7 @@ type vErr string
 func (e vErr) Error() string { return string(e) }
 
 var errVerifWrite error = vErr("verif: write error")
+var errVerifClosed error = vErr("verif: transport closed")
 
 func vNewTransport() *vTransport {
 	return &vTransport{proto: ProtocolTypeJSON, ping: PingPongConfig{PingInterval: 25 * time.Second, PongTimeout: 10 * time.Second}}
